@@ -146,18 +146,23 @@ theorem shortened_line_without_newline_at_start :
       (fun ls => ls.map (fun l => (l.x, l.w))) = some [(0, 40), (0, 120), (90, 30)] := by
   decide +kernel
 
-/-- finding `nowrap-breaks-after-collapsed-space`: `white-space: nowrap`, 50px, `aaa <b> </b>bbb`.  The
-space of `<b>` collapses with the one before it; the emptied `<b>` carries
-`trailing_collapsible_space`, so `last_letter is True` when `bbb` comes and the
-`elif box.style['white_space'] in ('pre', 'nowrap')` is not consulted: a break opportunity is recorded
-and, `bbb` overflowing, the line is broken — under `nowrap` … -/
-theorem nowrap_breaks_after_collapsed_space :
+/-- regression of the repaired finding `nowrap-breaks-after-collapsed-space` (fix fd6f32a):
+`white-space: nowrap`, 50px, `aaa <b> </b>bbb`.  The space of `<b>` collapses with the one before it; the
+emptied `<b>` carries `trailing_collapsible_space`, so `last_letter is True` when `bbb` comes; the
+`white_space in ('pre', 'nowrap')` test was an `elif` of that branch and was skipped: the line was broken
+(`aaa ` / `bbb`).  It is one overflowing line of 70 now … -/
+theorem nowrap_does_not_break_after_collapsed_space :
     lineWidths { inlinePara 50 [.text "aaa ".toList, .flagged (.box 0 0 false []), .text "bbb".toList] with
       st := { ws := .nowrap, wb := .normal, ow := .normal, fs := 10 },
-      align := { alignAll := .start, alignLast := none, ws := .nowrap, rtl := false } } = some [40, 30] := by
+      align := { alignAll := .start, alignLast := none, ws := .nowrap, rtl := false } } = some [70] := by
   decide +kernel
 
-/-- … while `aaa <b>x</b>bbb` stays on one overflowing line. -/
+/-- … while under `white-space: normal` the collapsed space is still a break opportunity … -/
+theorem normal_breaks_after_collapsed_space :
+    lineWidths (inlinePara 50 [.text "aaa ".toList, .flagged (.box 0 0 false []), .text "bbb".toList]) = some [40, 30] := by
+  decide +kernel
+
+/-- … and `aaa <b>x</b>bbb` under `nowrap` stays on one overflowing line, as before. -/
 theorem nowrap_keeps_one_line_without_collapsed_space :
     lineWidths { inlinePara 50 [.text "aaa ".toList, .box 0 0 false [.text "x".toList], .text "bbb".toList] with
       st := { ws := .nowrap, wb := .normal, ow := .normal, fs := 10 },
